@@ -45,7 +45,11 @@ fn main() {
     match args[1].as_str() {
         "check" => {
             let prop = args[2].as_str();
-            let tier = std::env::var("VERIF_TIER").unwrap_or_else(|_| args[3].clone());
+            // the tier named on the command line wins; VERIF_TIER is used when the command does not name one
+            let tier = match args[3].as_str() {
+                "quick" | "thorough" => args[3].clone(),
+                _ => std::env::var("VERIF_TIER").unwrap_or_else(|_| "quick".into()),
+            };
             let tier = if tier == "thorough" { "thorough" } else { "quick" };
             driver::watchdog::start(prop.to_string());
             let mut ctx = driver::Ctx::new(prop, tier, seed);
